@@ -7,7 +7,7 @@ From Coq Require Import List ZArith Bool Arith Lia Permutation Setoid Morphisms.
 From MV Require Import Csg.CsgDefs.
 Import ListNotations.
 
-Definition disjoint (A : CsgOps) (a b : sol A) : Prop := eqS A (inter A a b) (empty A).
+Definition disjoint (A : CsgOps) (a b : sol A) : Prop := dj A a b.
 
 (* pairwise disjoint, each element against the ones AFTER it *)
 Fixpoint pairwise_disjoint (A : CsgOps) (l : list (sol A)) : Prop :=
@@ -46,6 +46,7 @@ Record CsgLaws (A : CsgOps) : Prop := mkCsgLaws {
   act_mul : forall m n a, eqS A (act A (mmul A m n) a) (act A m (act A n a));
   act_one : forall a, eqS A (act A (mone A) a) a;
   is_one_act : forall m a, m_is_one A m = true -> eqS A (act A m a) a;
+  dj_sym : forall a b, dj A a b -> dj A b a;
   (* Compose of pairwise disjoint solids is their union *)
   compose_disjoint : forall l, pairwise_disjoint A l -> eqS A (compose A l) (bigU A l)
 }.
@@ -377,7 +378,7 @@ Section Algebra.
     Hypothesis K2 : 2 <= kmax.
 
     Lemma disjoint_sym a b : disjoint A a b -> disjoint A b a.
-    Proof. unfold disjoint. intros H. rewrite (inter_comm A LW). assumption. Qed.
+    Proof. apply (dj_sym A LW). Qed.
 
     (* every set of the partition is pairwise disjoint (later against earlier) *)
     Definition set_ok (s : list leaf) : Prop := s <> [] /\ pairwise_disjoint A (rev (map (lden A) s)).
